@@ -82,6 +82,8 @@ pub fn to_json(s: &[Decision], img: &FsImage) -> Value {
                     "path": path,
                     "io_seed": io_seed,
                 }),
+                Decision::Spawn { eager } => json!({ "op": "spawn", "eager": eager }),
+                Decision::TaskOrder { order } => json!({ "op": "task_order", "order": order }),
             })
             .collect(),
     )
@@ -124,6 +126,17 @@ pub fn from_json(v: &Value, img: &FsImage) -> Result<Vec<Decision>, String> {
             Some("open") => out.push(Decision::Open {
                 path: e["path"].as_str().ok_or("open without path")?.to_string(),
                 io_seed: e["io_seed"].as_u64().ok_or("open without io_seed")?,
+            }),
+            Some("spawn") => out.push(Decision::Spawn {
+                eager: e["eager"].as_bool().unwrap_or(true),
+            }),
+            Some("task_order") => out.push(Decision::TaskOrder {
+                order: e["order"]
+                    .as_array()
+                    .ok_or("task_order without order")?
+                    .iter()
+                    .map(|x| x.as_u64().unwrap_or(0) as u32)
+                    .collect(),
             }),
             o => return Err(format!("unknown schedule op {:?}", o)),
         }
